@@ -96,13 +96,17 @@ def headers_hash(roots):
 def compile_one(cc, src, flags, hdrhash, extra_key=''):
     with open(src, 'rb') as fh:
         body = fh.read()
-    key = sha(cc, ' '.join(flags), hdrhash, src, body, extra_key)
+    key = sha(cc, ' '.join(flags), hdrhash, src, body, extra_key + ('|noredirect2' if src.endswith('/threading.c') else ''))
     out = os.path.join(OBJ, key + '.o')
     if os.path.exists(out):
         return out, False
     os.makedirs(OBJ, exist_ok=True)
     tmp = out + '.tmp%d' % os.getpid()
     fl = list(flags)
+    if src.endswith('/threading.c') and any(f.endswith('vf_malloc.h') for f in fl):
+        # the DEBUGLEVEL>=1 threading layer mallocs every mutex/cond so that ASan sees a missing destroy; those
+        # allocations do not exist in a release build and are not part of the fault domain
+        fl.append('-DVF_NO_MALLOC_REDIRECT')
     if src.endswith('.S'):   # a force-included C header is meaningless (and fatal) for assembly sources
         while '-include' in fl:
             i = fl.index('-include'); del fl[i:i + 2]
